@@ -24,7 +24,7 @@ Net == /\ state \in {"start", "eth", "sll", "vlan"}
           \/ state # "start" /\ c' = [c EXCEPT !.net = "arp"] /\ state' = "arp"
 Transport == /\ state = "ip"
              /\ \/ c' = [c EXCEPT !.tr = "udp"] /\ state' = "udp"
-                \/ \E f \in {0, 511, 2, 16, 18, 32, 256, 1, 4, 8, 64, 128}, o \in {0, 12, 40} : c' = [c EXCEPT !.tr = "tcp", !.tcp_flags = f, !.tcp_opts = o] /\ state' = "tcp"
+                \/ \E f \in {0, 511, 2, 16, 18, 32, 256, 1, 4, 8, 64, 128}, o \in {0, 12, 28, 40} : c' = [c EXCEPT !.tr = "tcp", !.tcp_flags = f, !.tcp_opts = o] /\ state' = "tcp"
                 \/ c' = [c EXCEPT !.tr = "tcphdr"] /\ state' = "tcp"
                 \/ \E t \in {"icmp4echo", "icmp4reply", "icmp4raw", "icmp4typed"} : c' = [c EXCEPT !.tr = t] /\ state' = "icmp4"
                 \/ \E t \in {"icmp6echo", "icmp6reply", "icmp6raw", "icmp6typed"} : c' = [c EXCEPT !.tr = t] /\ state' = "icmp6"
